@@ -151,7 +151,7 @@ class FuncGen:
     # ---------------------------------------------------------------- straight-line pieces
     def gen_int(self):
         r = self.r
-        k = r.below(17)
+        k = r.below(19)
         d = self.ireg()
         if k <= 2:
             self.emit(r.choice(INT3), d, self.isrc(), self.isrc()); self.stat("int3")
@@ -237,6 +237,27 @@ class FuncGen:
             lim = 3 * c1 * c2
             if lim + 8 <= 448:
                 self.emit("mov", d, ("mem", r.choice(MEMT), r.below(448 - lim - 8 + 1), "t1", None, 1)); self.stat("addr_chain")
+        elif k in (16, 17) and self.o["mem"] and self.o["alloca"]:
+            # partially overlapping accesses of different widths inside one word (dead-store / forwarding tests):
+            # wide store, then a narrower load (or store + wide load) strictly inside it, directly off the
+            # alloca block or the buffer, through a constant offset or a computed pointer
+            base = "tal" if r.chance(2, 3) else "buf"
+            wt = r.choice(["i64", "u64", "i32", "u32", "i16", "u16"])
+            nt = r.choice([t for t in MEMT if TSIZE[t] < TSIZE[wt]])
+            off = 8 * r.below(7)
+            delta = r.below(TSIZE[wt] - TSIZE[nt] + 1)
+            self.emit("mov", ("mem", wt, off, base, None, 1), self.isrc())
+            if r.chance(1, 2):
+                self.emit("add", "tb", base, off + delta)
+                nm = ("mem", nt, 0, "tb", None, 1)
+            else:
+                nm = ("mem", nt, off + delta, base, None, 1)
+            if r.chance(2, 3):
+                self.emit("mov", d, nm)
+            else:
+                self.emit("mov", nm, self.isrc())
+                self.emit("mov", d, ("mem", wt, off, base, None, 1))
+            self.stat("overlap_access")
         else:
             self.emit(r.choice(INT3), d, self.ireg(), self.ireg()); self.stat("int3")
 
